@@ -172,7 +172,7 @@ def gen_workload(rng, cfg, thorough):
                 r = rng.random()
                 key = focus if rng.random() < 0.7 else rng.choice(SRC_KEYS)
                 if r < 0.40:
-                    env.append(['rewrite', key, rng.choice(['inplace', 'replace'])])
+                    env.append(['rewrite', key, rng.choice(['inplace', 'replace', 'preserved'])])
                 elif r < 0.48:
                     env.append(['touch', key])
                 elif r < 0.66:
@@ -415,6 +415,8 @@ class CacheSim(object):
         elif call in ('write', 'ftruncate', 'truncate'):
             node.tag['sv'] = self.scanner_version
             node.tag['wseq'] = seq
+        if call in ('write', 'ftruncate', 'truncate') or (call == 'open' and res in ('creat', 'trunc')):
+            node.tag['wns'] = self.fs.now_ns          # when its data last changed (not its mtime)
 
     # -- environment ------------------------------------------------------------------
     def setup(self):
@@ -440,7 +442,17 @@ class CacheSim(object):
         self.next_version[key] = k + 1
         data = gir_text(key, k, self.cfg['ntypes'], self.cfg['include_base'])
         self.fs.tick(self._delta())
-        node = self.fs.env_write_file(SOURCES[key], data, replace=(mode == 'replace'))
+        node = self.fs.env_write_file(SOURCES[key], data, replace=(mode in ('replace', 'preserved')))
+        if mode == 'preserved':
+            # installed by a tool that preserves time stamps (dpkg, rsync -t, cp -p): the new file
+            # carries an mtime from the past -- but one that is later than the moment the data of
+            # the current cache entry was written, so the entry is older than its source and an
+            # mtime comparison can and must still reject it
+            entry = self.fs.lookup(self.entry_path(key)) if self.fs.lookup(self.cachedir) else None
+            if entry is not None and 'wns' in entry.tag:
+                t2 = min(self.fs.now_ns, entry.tag['wns'] + self._clock_rng.choice((1_000, 50_000, 3_000_000)))
+                if t2 > entry.tag['wns']:
+                    node.mtime_ns = t2
         node.tag['src'] = (key, k)
         self.cur_version[key] = k
         self.version_digest[(key, k)] = reference_digest(data)
